@@ -17,7 +17,7 @@ from ..core import Check, MachineryFailure
 from .. import graph
 from ..impl_record import RecordImpl, to_tensor
 from .record_common import (mc_constants, run_mc_configs, gen_graph, replay_graph, random_record_traces,
-                            validate_traces, canary_trace, hdr_from_consts)
+                            validate_traces, canary_trace, canary_replay, hdr_from_consts)
 
 PID = "C02"
 KINDS = {"time", "push"}
@@ -114,8 +114,14 @@ def run(tier: str, seed: int) -> int:
                          param=rng.random() < 0.5, tick=tick)
         roundtrip(chk, g, consts, rng, 400 if tier == "quick" else 5000, rng.choice(ticks))
 
+    canary_replay(chk, g, consts, rng)
     ntr = 120 if tier == "quick" else 2500
     traces = random_record_traces(rng, ntr, families=("time", "time", "basic"), steps=25)
     validate_traces(chk, traces, site="random-time-history")
     canary_trace(chk, traces[0])
     return chk.finish()
+
+
+def replay(path: str) -> int:
+    from .record_common import replay_file
+    return replay_file(PID, path)
